@@ -22,7 +22,9 @@ Code == [a |-> 97, b |-> 98, bs |-> 92, q |-> 63, plus |-> 43, star |-> 42, lb |
          nul |-> 0, bad |-> 65533,
          \* ordinary characters that other layers give a meaning to: U+3000 (white space for unicode.IsSpace, not for
          \* git), and the characters of a ${{ }} placeholder (filters are not evaluated: they are pattern characters)
-         usp |-> 12288, dollar |-> 36, lc |-> 123, rc |-> 125]
+         usp |-> 12288, dollar |-> 36, lc |-> 123, rc |-> 125,
+         \* ordinary non-ASCII letters whose LOW BYTE is a ref-forbidden ASCII character (0x20, 0x3A, 0x7E, 0x5E, 0x09)
+         lowsp |-> 288, lowcolon |-> 314, lowtilde |-> 382, lowcaret |-> 350, lowtab |-> 265]
 \* NUL and invalid UTF-8 ("bad", seen as U+FFFD): the scanner reports an error for them, so a pattern that
 \* contains one is invalid.  They are not part of the exhaustive alphabets; the operational layer does not
 \* model where the scanner error is placed (recorded executions with them are judged by the declarative layer).
